@@ -76,6 +76,11 @@ TEMPLATE_OUT = ["3", "1", "4", "2", "9", "7", "6", "8", "3"]
 BARE = ["field", "method", "mparam", "Variant", "mbind", "cparam", "Type", "Enum", "lvl", "lvo", "lvd", "fsv", "mutl"]
 
 
+# locals of tmpl bound AFTER the closure / the match, the model's field, a local of the caller
+REUSE = {"cparam": ["items", "gadget", "table", "shown", "grow"], "mbind": ["items", "gadget", "table", "shown", "grow"],
+         "mparam": ["amount"], "mutl": ["grow", "items"]}
+
+
 def template_case(pos, name, k):
     names = dict(SAFE)
     names[pos] = name
@@ -143,6 +148,15 @@ def run(ctx):
             nm = n
             # type-like positions are conventionally capitalised; lower-case names there are their own class (kept)
             tcases.append(template_case(pos, nm, k))
+            k += 1
+    # names that the program itself binds in a DISJOINT scope (a later local of the enclosing block, a field, a local of
+    # another function): renaming a closure parameter / match binding / method parameter / written parameter to such a
+    # name is consistent and non-clashing - the scopes do not overlap - and must change nothing
+    for pos, reuse in REUSE.items():
+        for nm in reuse:
+            c = template_case(pos, nm, k)
+            c["tags"] = c["tags"] + ["class:reuse-disjoint-scope"]
+            tcases.append(c)
             k += 1
     allc = cases + tcases
     # the templates with safe names must behave as specified (guards the template itself)
